@@ -22,7 +22,7 @@ SEMANTIC = [
     "decreases not satisfied", "could not prove termination", "recommendation not met",
     "possible bit shift underflow/overflow", "index out of bounds", "loop invariant not satisfied",
     "unable to prove assertion", "failed to prove", "cannot show invariant holds",
-    "could not show termination", "decreases clause not satisfied",
+    "could not show termination", "decreases clause not satisfied", "precondition not met",
 ]
 UNDECIDED = ["Resource limit (rlimit) exceeded", "rlimit", "timed out"]
 
